@@ -18,6 +18,11 @@ theorem Leg.portOff_eq (leg : Leg) : leg.portOff = ((leg.pto : Nat) : Int) := by
 theorem Leg.ipo_le (leg : Leg) : leg.ipo + 4 ≤ 512 := by cases leg <;> simp [Leg.ipo]
 theorem Leg.pto_le (leg : Leg) : leg.pto + 2 ≤ 512 := by cases leg <;> simp [Leg.pto]
 
+theorem Leg.ipo_stable (leg : Leg) : ∀ j, leg.ipo ≤ j → j < leg.ipo + 4 → Stable j := by
+  cases leg <;> (intro j h1 h2; simp only [Leg.ipo] at h1 h2; unfold Stable; omega)
+theorem Leg.pto_stable (leg : Leg) : ∀ j, leg.pto ≤ j → j < leg.pto + 2 → Stable j := by
+  cases leg <;> (intro j h1 h2; simp only [Leg.pto] at h1 h2; unfold Stable; omega)
+
 theorem pkt_addr_head (st : List Byte) (leg : Leg) :
     ((pktOfD st).addr leg).headD 0 = BitVec.ofNat 32 (fieldN st leg.ipo 4) := by
   cases leg <;> rfl
@@ -52,7 +57,7 @@ theorem decides_cidrV4 (env : Env) (st : List Byte) (hlen : st.length = 512) (P 
   have rl : ∀ {mm : Mach}, Inv st mm → ∀ r, r < 11 → r < mm.regs.length := fun h r hr => by rw [h.regsLen]; exact hr
   have e1 := step_ldx_state (env := env) hI opLoadReg32 1 leg.ipo 4 0 (bs := (st.drop leg.ipo).take 4)
     (hop := Or.inr (Or.inr (Or.inl ⟨rfl, rfl⟩))) (hd := by omega) (hk := leg.ipo_le)
-    (hb := getBytes_full hlen leg.ipo 4 leg.ipo_le)
+    (hb := getBytes_full hlen leg.ipo 4 leg.ipo_le) (hstab := leg.ipo_stable)
   have hI1 := hI.setReg 1 (BitVec.ofNat 64 (fieldN st leg.ipo 4)) (by omega) (by omega) (by omega)
   have hI2 := hI1.setReg 2 (((sext32 (rev32bv (mask32bv n.pfx)).toInt).setWidth 32).setWidth 64)
     (by omega) (by omega) (by omega)
